@@ -4,9 +4,9 @@ import json, os, shutil, sys
 sid, src, prop, needs, caught, ran = sys.argv[1:7]
 dst = os.path.join("/verif/seeded", sid)
 os.makedirs(dst, exist_ok=True)
-for f in ("patch.diff", "demo.py", "demo.sh", "notes.md"):
+for f in sorted(os.listdir(src)):
     p = os.path.join(src, f)
-    if os.path.exists(p):
+    if os.path.isfile(p) and (f == "patch.diff" or f.endswith((".py", ".sh", ".md"))) and os.path.getsize(p) < 200000:
         shutil.copy(p, os.path.join(dst, f))
 meta = {"id": sid, "breaks_property": prop, "needs_to_manifest": needs, "caught_by": caught.split(","),
         "what_was_run": ran,
